@@ -22,7 +22,7 @@ func histSuites(prefix string, cfgs []*histCfg, bound int, mk func(h *hist) []Mo
 func init() {
 	register(&Check{
 		ID: "C05", Level: "model_checking",
-		Rule:        "(a) the seat-manager BFS of C04 with a per-seat counter of consecutive hands missed, checking the waiting flag at every seating, that a dealt-in player with chips is never made to wait, and at most three missed hands; (b) multi-hand table histories per seat layout with arrivals (joined / sitting out) before and after the first hand and at the first wager request, busts (all-in lines with deck choice), re-buys and departures, all histories with at most `bound` non-default picks: at every open the dealt-in set must equal seated-in & chips & not-waiting (seat manager's flag), table and seat manager must agree, at least two are dealt in, a dealt-in player with chips who stays is dealt into the next hand, nobody eligible misses more than three hands",
+		Rule:        "(a) the seat-manager BFS of C04 with a per-seat counter of consecutive hands missed, checking the waiting flag at every seating, that a dealt-in player with chips is never made to wait, and at most three missed hands; (b) multi-hand table histories per seat layout with arrivals (joined / sitting out) before and after the first hand and at the first wager request, busts (all-in lines with deck choice), re-buys and departures, all histories with at most `bound` non-default picks: at every open the dealt-in set must equal seated-in & chips & not-waiting (seat manager's flag), table and seat manager must agree, at least two are dealt in, a dealt-in player with chips who stays is dealt into the next hand, nobody eligible misses more than three hands; (c) the same oracle on histories in which a re-buy / add-on / arrival / departure of a bystander races the settlement of hand 1 (fine-mode schedule exploration)",
 		Assumptions: []string{"stacks 3..12; blinds 1/2", "the waiting flag is read from the seat manager through the build-tagged accessor"},
 		Suites: func(tier string) []*Suite {
 			bound, hands := 2, 3
@@ -35,6 +35,7 @@ func init() {
 				hc.mid = []string{"none", "arrive", "rebuy-part", "leave-sitout"}
 			}
 			ss := histSuites("c05/", cfgs, bound, func(h *hist) []Monitor { return []Monitor{newMonC05()} })
+			ss = append(ss, raceSuites("c05/", tier, true, func(h *hist) []Monitor { return []Monitor{newMonC05()} })...)
 			seat := filterViolations(seatSuites(tier, true), func(k string) bool { return strings.HasPrefix(k, "C05:") })
 			for _, s := range seat {
 				s.Name = "c05/" + s.Name
@@ -107,7 +108,7 @@ func init() {
 	})
 	register(&Check{
 		ID: "C08", Level: "model_checking",
-		Rule:        "chains of hands in which every subset of participants an all-in line + deck can bust is produced, with sitting-out / waiting / newly arrived players and every settlement-finished policy (all, none -> timeout, first only); after each settlement the driver makes no call other than the scripted signals and fires virtual timers: the table must pause iff (break or fewer players with chips than the minimum), otherwise with two seated-in players with chips the next hand must open not before the continue interval and not later than interval + open-game timeout; a table left in standby with nothing runnable and no timer is a wedge",
+		Rule:        "chains of hands in which every subset of participants an all-in line + deck can bust is produced, with sitting-out / waiting / newly arrived players and every settlement-finished policy (all, none -> timeout, first only); after each settlement the driver makes no call other than the scripted signals and fires virtual timers: the table must pause iff (break or fewer players with chips than the minimum), otherwise with two seated-in players with chips the next hand must open not before the continue interval and not later than interval + open-game timeout; a table left in standby with nothing runnable and no timer is a wedge; plus schedule exploration of (i) arrivals issued back to back between hands against the join gate's own goroutine and (ii) a re-buy / add-on / arrival / departure of a bystander racing the settlement of hand 1",
 		Assumptions: []string{"liveness is decided in virtual time: 'nothing runnable and no timer pending' is final", "continue interval 1 s, open-game timeout 2 s (hard-coded in CreateTable)"},
 		Suites: func(tier string) []*Suite {
 			bound, hands := 2, 4
@@ -121,7 +122,8 @@ func init() {
 				hc.late = []string{"none", "arrive", "leave-live", "rebuy"}
 				hc.finish = []string{"all", "none", "first"}
 			}
-			return append(histSuites("c08/", cfgs, bound, func(h *hist) []Monitor { return []Monitor{newMonC08(h, 1)} }), c08SchedSuites(tier)...)
+			ss := append(histSuites("c08/", cfgs, bound, func(h *hist) []Monitor { return []Monitor{newMonC08(h, 1)} }), c08SchedSuites(tier)...)
+			return append(ss, raceSuites("c08/", tier, false, func(h *hist) []Monitor { return []Monitor{newMonC08(h, 1)} })...)
 		},
 	})
 	register(&Check{
